@@ -1,0 +1,22 @@
+//go:build verif
+
+// Contracts for the govc verifier (see /verif/DESIGN.md). Comment-only file: with the
+// "verif" build tag off it is not compiled; with it on it contains only the package clause.
+
+package resolver
+
+// hostOf(s): the host part url.Parse extracts from a server address (uninterpreted).
+//@ uf hostOf(string) string
+//@ func net/url.Parse
+//@   trusted
+//@   params rawURL
+//@   ensures err == nil ==> result0 != nil && result0.Host == hostOf(rawURL)
+
+//@ func ParseAuth
+//@   props C18
+//@   ensures[C18] auth == nil ==> result0 == "" && result1 == "" && err == nil
+//@   ensures[C18] auth != nil && auth.ServerAddress != "" && hostOf(auth.ServerAddress) != host ==> result0 == "" && result1 == ""
+//@   ensures[C18] err == nil && auth != nil && (auth.ServerAddress == "" || hostOf(auth.ServerAddress) == host) && auth.Username != "" ==> result0 == auth.Username && result1 == auth.Password
+//@   ensures[C18] err == nil && auth != nil && (auth.ServerAddress == "" || hostOf(auth.ServerAddress) == host) && auth.Username == "" && auth.IdentityToken != "" ==> result0 == "" && result1 == auth.IdentityToken
+//@   ensures[C18] auth != nil && auth.ServerAddress == "" && (auth.Username != "" || auth.IdentityToken != "") ==> err == nil
+//@   ensures[C18] err != nil ==> result0 == "" && result1 == ""
